@@ -90,6 +90,8 @@ pub struct RaceCase {
     ///    (returns the worker's error), open the index again, new writer, add and commit, release
     /// 6: hold one indexing worker inside the n-th rewrite of .managed.json (registration of a new file) while the other
     ///    worker registers its files, commit; the persisted list, read through a fresh Index, must name every file
+    /// 7: hold the garbage collection that ends a merge at its n-th deletion while an indexing worker creates the
+    ///    files of a new segment, release, commit
     pub kind: u8,
     pub nth: u8,
     pub adds_during: Vec<AddSpec>,
@@ -118,12 +120,12 @@ impl Sub for Races {
             c
         });
         let prefix_op = prop_oneof![8 => add_strategy().prop_map(Op::Add), 1 => any::<u16>().prop_map(Op::DelUid), 3 => Just(Op::Commit)];
-        (cfg, prop::collection::vec(prefix_op, 2..20), 0u8..7, 0u8..6, prop::collection::vec(add_strategy(), 1..5), prop::collection::vec(op_strategy(false), 0..8))
+        (cfg, prop::collection::vec(prefix_op, 2..20), 0u8..8, 0u8..6, prop::collection::vec(add_strategy(), 1..5), prop::collection::vec(op_strategy(false), 0..8))
             .prop_map(|(cfg, prefix, kind, nth, adds_during, suffix)| RaceCase { cfg, prefix, kind, nth, adds_during, suffix })
             .boxed()
     }
     fn mandatory_labels(&self, _t: Tier) -> Vec<&'static str> {
-        vec!["race:gc_queued_behind_commit", "race:gc_while_worker_writes_segment", "race:gc_while_merge_writes_segment", "race:gc_while_reader_loads", "race:old_updater_task_after_writer_drop", "old_updater_held_at_writer_drop", "race:worker_held_while_other_worker_fails", "wait_merging_threads_returned_worker_error", "race:worker_held_in_managed_list_write", "other_worker_registered_files_meanwhile", "reader_held_at_meta_lock", "reader_held_at_segment_file_open", "gate_reached", "unpublished_files_existed_during_gc"]
+        vec!["race:gc_queued_behind_commit", "race:gc_while_worker_writes_segment", "race:gc_while_merge_writes_segment", "race:gc_while_reader_loads", "race:old_updater_task_after_writer_drop", "old_updater_held_at_writer_drop", "race:worker_held_while_other_worker_fails", "wait_merging_threads_returned_worker_error", "race:worker_held_in_managed_list_write", "other_worker_registered_files_meanwhile", "race:collector_held_at_deletion_while_worker_registers", "reader_held_at_meta_lock", "reader_held_at_segment_file_open", "gate_reached", "unpublished_files_existed_during_gc"]
     }
     fn run(&self, c: &RaceCase, cx: &Ctx) -> CaseResult {
         let mut cfg = c.cfg.clone();
@@ -322,6 +324,33 @@ impl Sub for Races {
                 let t0 = std::time::Instant::now();
                 while t0.elapsed() < Duration::from_millis(40) {
                     std::thread::yield_now();
+                }
+            }
+            7 => {
+                let ids = env.index.searchable_segment_ids().or_fail("segment_ids_failed")?;
+                if ids.len() >= 2 {
+                    let gate = sd.add_gate(GateSpec { thread: "segment_updater".into(), kind: Some(K::Delete), path_suffix: String::new(), nth: c.nth as usize, max_hold: Duration::from_millis(250) });
+                    let fut = env.writer.as_mut().unwrap().merge(&ids);
+                    reached = sd.wait_reached(gate, Duration::from_millis(300));
+                    let before = creates_by(&sd, "thrd-tantivy-index");
+                    for a in &c.adds_during {
+                        env.apply(&Op::Add(a.clone()), cx)?;
+                    }
+                    let t0 = std::time::Instant::now();
+                    while creates_by(&sd, "thrd-tantivy-index") < before + 5 && t0.elapsed() < Duration::from_millis(150) {
+                        std::thread::yield_now();
+                    }
+                    unpublished = reached && sd.gate_pending(gate) && creates_by(&sd, "thrd-tantivy-index") > before;
+                    cx.label_if(unpublished, "race:collector_held_at_deletion_while_worker_registers");
+                    sd.disarm(gate);
+                    let merged: Result<(), ()> = fut.wait().map(|_| ()).map_err(|_| ());
+                    ensure!(merged.is_ok(), "merge_failed_with_held_collection", "the merge whose garbage collection was held failed");
+                    // the persisted list, as a fresh Index reads it, names every file that exists
+                    env.apply(&Op::Commit, cx)?;
+                    let fresh = tantivy::Index::open(sd.clone()).or_fail("index_open_failed")?;
+                    let managed: std::collections::BTreeSet<String> = fresh.directory().list_managed_files().iter().map(|p| p.to_string_lossy().to_string()).collect();
+                    let unlisted: Vec<String> = sd.file_names().into_iter().filter(|p| !p.starts_with('.') && p != "meta.json" && !managed.contains(p)).collect();
+                    ensure!(unlisted.is_empty(), "persisted_managed_list_misses_files", "after a commit these files exist but the persisted .managed.json does not name them: {unlisted:?}");
                 }
             }
             6 => {
